@@ -207,6 +207,20 @@ def abs_tol(P, R):
                     if tgt is not None and tgt not in tainted and is_data(rhs):
                         tainted.add(tgt)
                         changed = True
+            # EARLY-RETURN: no return of a kernel is controlled by the matrix data.  The result parameter is written on
+            # every call (inf/nan for a singular system, which vnaconv(3) documents); a data-dependent early return
+            # leaves whatever the buffer held before for the callers that do not test the determinant
+            for n in f.walk():
+                if n.k == "IfStmt":
+                    kids_ = [x for x in n.kids if x is not None]
+                    if is_data(kids_[0]) and any(m.k == "ReturnStmt" for br in kids_[1:] for m in br.walk()):
+                        R.violated(Finding("R34b", PROPS + ("C04",), file, f.name, "early-return",
+                                           "`if (%s)` returns before the result has been written: the output parameter keeps its "
+                                           "previous contents when the condition on the matrix data holds, and callers that ignore "
+                                           "the returned determinant (vnaconv_*) deliver stale values" % kids_[0].text(), n.line))
+            nret = len([m for m in f.walk() if m.k == "ReturnStmt"])
+            if nret >= 1 and not any(fd.func == f.name and fd.anchor == "early-return" for fd in R.findings):
+                R.ok("R34b|%s|%s|early-return" % (file, f.name), PROPS)
             per = 0
             for n in f.walk():
                 if n.k != "BinaryOperator" or n.op not in ("<", ">", "<=", ">=", "==", "!="):
